@@ -180,7 +180,9 @@ AXES = [
     ("artist", [(s or "<empty>", ax_text("Artist", s)) for s in ("a: b", "yes", "日本語")]),
     ("creator", [(s, ax_text("Creator", s)) for s in ("123", "null")]),
     ("difficulty", [(s, ax_text("DifficultyName", s)) for s in ("# x", "- y", "7K Another")]),
-    ("tags", [("many", ax_text("Tags", "a b  c")), ("empty", ax_text("Tags", ""))]),
+    ("tags", [("many", ax_text("Tags", "a b  c")), ("empty", ax_text("Tags", "")),
+              # tags are separated by the ASCII space only: other white space belongs to the tag
+              ("ideographic-space", ax_text("Tags", "東方\u3000Project b")), ("nbsp", ax_text("Tags", "feat.\u00a0x c"))]),
     ("meta_num", [("on", ax_meta_num)]),
     ("times", [("negative", ax_times("negative")), ("large", ax_times("large"))]),
     ("extra_keys", [("strings", ax_extra_keys), ("ints", ax_extra_int_keys)]),
